@@ -340,10 +340,34 @@ def gen_lifecycle(rng):
         [["connect"], ["connect"], ["read", 4, 0], ["close"], ["read", 4, 0], ["close"]],
         [["connect"], ["read", 2, 10], ["read", 2, 10], ["read", 2, 10], ["write", "", 10], ["close"]],
     ]
+    # connect(transport_timeout_s=X) does NOT change the default used by later reads/writes that give no timeout
+    for x in (0.001, 1, 2.25):
+        seqs.append([["connect", x], ["read", 4], ["write", "aa"], ["read", 2, None], ["write", "bb", None], ["close"], ["connect"], ["read", 4], ["write", "cc"], ["close"]])
     for ops in seqs:
         for win in (False, True):
             out.append(base_case(win=win, dms=rng.choice(DEFAULTS), script=[["ok", payload(rng, rng.choice([0, 1, 2])), rng.choice([0, 1, 2])] for _ in range(14)],
                                  ops=ops, family="lifecycle"))
+    # a read that times out after PART of the data arrived (libusb reports it in USBErrorTimeout.received), then close / connect / read:
+    # the new connection's reads are what the IN endpoint delivers now, nothing of the old session
+    for win in (False, True):
+        for n_to in (1, 2):
+            s = Script(win)
+            s.connect(1)
+            for _ in range(n_to):
+                s.s.append(["err", "timeout", payload(rng, rng.choice([1, 7, 24, 40]))])
+            s.close()
+            s.connect(0)
+            s.read(payload(rng, 24))
+            s.read(payload(rng, 3))
+            s.close()
+            out.append(base_case(win=win, script=s.s, ops=[["connect"]] + [["read", 24, 0.5]] * n_to + [["close"], ["connect"], ["read", 24, 0.5], ["read", 8], ["close"]],
+                                 family="partial-timeout"))
+            s = Script(win)
+            s.connect(1)
+            s.s.append(["err", "timeout", payload(rng, 5)])
+            s.read(payload(rng, 24))
+            s.close()
+            out.append(base_case(win=win, script=s.s, ops=[["connect"], ["read", 24, 0.5], ["read", 24, 0.5], ["close"]], family="partial-timeout"))
     for eps in ([], [0x81], [0x01], [0x81, 0x82], [0x01, 0x02], [0x81, 0x01, 0x82, 0x02], [0x02, 0x82, 0x01, 0x81], [0x81, 0x81, 0x01],
                 [0x8F, 0x0F], [0x80, 0x00], [0xFF, 0x7F]):
         for win in (False, True):
